@@ -12,7 +12,7 @@ from ..runner import ok, fail, discard, HarnessError, exception_signature
 PROP = 'C05'
 RULE = ('case = (design with several sequential leaves wired to each other - generated register netlists with feedback '
         'through logic, or a library design: UART serializer->deserializer loop, Reg2Axi->Axi2Reg pair, synchronous '
-        'memory with register address/data paths - plus a schedule of input vectors held for n_i cycles, and k '
+        'memory with register address/data paths, an object-state FSM leaf (clock()+propagate()) enabling a counter - plus a schedule of input vectors held for n_i cycles, and k '
         'permutations (always including the reversal) of the order in which the simulator visits the sequential leaves). '
         'Non-trivial iff some sequential leaf S changes its output at an edge while another sequential leaf R reads S '
         '(directly or through logic) and S is visited before R in at least one explored permutation, i.e. an immediate '
@@ -114,7 +114,39 @@ def d_chain(p):
     return s, [din]
 
 
-DESIGNS = {'uart': d_uart, 'axi': d_axi, 'mem': d_mem, 'chain': d_chain}
+class MooreDivider(py4hw.Logic):
+    """behavioural style of the documentation: the state lives in the object, clock() prepares no wire and the output
+    is driven from propagate()"""
+
+    def __init__(self, parent, name, go, tick, n):
+        super().__init__(parent, name)
+        self.go = self.addIn('go', go)
+        self.tick = self.addOut('tick', tick)
+        self.n = n
+        self.state = 0
+
+    def clock(self):
+        if self.go.get():
+            self.state = (self.state + 1) % self.n
+
+    def propagate(self):
+        self.tick.put(1 if self.state == self.n - 1 else 0)
+
+
+def d_fsm(p):
+    """an object-state FSM (clock() + propagate()) whose tick enables a library counter and a register"""
+    s = py4hw.HWSystem()
+    w = s.wire
+    go, tick, zero = w('go'), w('tick'), w('zero')
+    count, d, q = w('count', 6), w('d', 4), w('q', 4)
+    py4hw.Constant(s, 'zero', 0, zero)
+    MooreDivider(s, 'div', go, tick, p.get('n', 3))
+    py4hw.Counter(s, 'ticks', zero, tick, count)
+    py4hw.Reg(s, 'sample', d, q, enable=tick)
+    return s, [go, d]
+
+
+DESIGNS = {'uart': d_uart, 'axi': d_axi, 'mem': d_mem, 'chain': d_chain, 'fsm': d_fsm}
 
 
 # ---- execution ---------------------------------------------------------------------------------------------------------
@@ -246,6 +278,25 @@ def run_case(case):
                 nt = True
             prev = {k: ref[t]['n%d' % k] for k in prev}
     else:
+        if case['design'] == 'fsm':
+            # reference: pre-edge tick decides the counter and the sampling register; the FSM advances at the same edge
+            n = case.get('params', {}).get('n', 3)
+            state = count = q = 0
+            for k, (vec, cyc) in enumerate(schedule):
+                for _ in range(cyc):
+                    tick = 1 if state == n - 1 else 0
+                    count, q = (count + tick) & 63, (vec[1] & 15 if tick else q)
+                    if vec[0]:
+                        state = (state + 1) % n
+                got = traces[0][k + 1][0]
+                exp = {'count': count, 'q': q, 'tick': 1 if state == n - 1 else 0}
+                for name, v in exp.items():
+                    key = [x for x in got if x == '/HWSystem[HWSystem][{}]'.format(name)]
+                    if not key:
+                        raise HarnessError('wire {} not found in {}'.format(name, sorted(got)[:8]))
+                    if got[key[0]] != v:
+                        return fail('two_phase_reference|fsm', 'after schedule step {}: {} is {} but pre-edge sampling gives {} ; n={} schedule {}'.format(
+                            k, name, got[key[0]], v, n, schedule[:8]), cls=tags)
         # library designs: non-trivial if at least two clockable leaves changed state at the same edge sometime
         tr = traces[0]
         for a, b_ in zip(tr, tr[1:]):
@@ -259,7 +310,7 @@ def run_case(case):
 @st.composite
 def netlist_cases(draw, max_nodes):
     desc = draw(netlists(max_nodes=max_nodes, min_nodes=2, n_regs=(2, 6), n_mems=(0, 2), hierarchy=2, max_w=16, domains=draw(st.booleans()), widths=[1, 2, 4, 4, 8],
-                         ops=['And2', 'Or2', 'Xor2', 'Not', 'Add', 'Sub', 'Mux2', 'Constant', 'Range', 'Bit', 'ZeroExtend', 'Buf']))
+                         ops=['And2', 'Or2', 'Xor2', 'Not', 'Add', 'Sub', 'Mux2', 'Constant', 'Range', 'Bit', 'ZeroExtend', 'Buf', 'Mealy']))
     from ..cat_arith import value_st
     # bias towards registers that read another register's output directly (chains, swaps, rings across domains)
     regs = [k for k, nd in enumerate(desc['nodes']) if nd['op'] == 'Reg']
@@ -288,7 +339,7 @@ def netlist_cases(draw, max_nodes):
 
 @st.composite
 def design_cases(draw):
-    name = draw(st.sampled_from(['uart', 'axi', 'mem', 'chain', 'chain', 'mem']))
+    name = draw(st.sampled_from(['uart', 'axi', 'mem', 'chain', 'chain', 'mem', 'fsm', 'fsm']))
     if name == 'uart':
         params = {'n': draw(st.integers(2, 4))}
         steps = []
@@ -301,6 +352,9 @@ def design_cases(draw):
         for _ in range(draw(st.integers(3, 12))):
             steps.append([[draw(st.sampled_from([0, 0, 1])), draw(st.sampled_from([0, 0, 0, 1])), 0,
                            draw(st.integers(0, 1)), draw(st.integers(0, 255))], draw(st.integers(1, 3))])
+    elif name == 'fsm':
+        params = {'n': draw(st.integers(2, 6))}
+        steps = [[[draw(st.sampled_from([1, 1, 1, 0])), draw(st.integers(0, 15))], draw(st.sampled_from([1, 2, 3, 7, 12, 24]))] for _ in range(draw(st.integers(2, 8)))]
     elif name == 'mem':
         params = {'aw': draw(st.integers(1, 3)), 'dw': draw(st.integers(1, 8))}
         steps = [[[draw(st.integers(0, 255)), draw(st.integers(0, 1))], draw(st.integers(1, 4))] for _ in range(draw(st.integers(3, 12)))]
